@@ -79,7 +79,7 @@ opt_int64_t CgroupContext__current_usage(CgroupContext cg)
 #define PA_BEST(s) ((s)->resource_ == ResourceType__IO ? g_best_io : g_best_mem)
 #define PA_ABOVE(s) (PA_BEST(s).sec_10 > (float)(s)->threshold_)
 
-PluginRet PressureAbove_run(PressureAbove *self, OomdContext ctx)
+PluginRet PressureAbove__run(PressureAbove *self, OomdContext ctx)
   __CPROVER_requires(__CPROVER_is_fresh(self, sizeof(*self)))
   __CPROVER_requires(PA_VALID_RES(self) && ghost_exc == 0)
   /* Inv8: hit_thres_at_ is epoch (no run open) or a past clock reading */
@@ -105,7 +105,7 @@ PluginRet PressureAbove_run(PressureAbove *self, OomdContext ctx)
   __CPROVER_ensures(TP_VALID(self->hit_thres_at_) && TP_LE(self->hit_thres_at_, g_last_now))
   __CPROVER_ensures(ghost_exc == 0);
 
-#define LOOPC_PressureAbove_run_1 \
+#define LOOPC_PressureAbove__run_1 \
   __CPROVER_assigns(__begin1, current_pressure, current_memory_usage, g_best_mem, g_best_io, \
                     g_calls_mem, g_calls_io, g_calls_usage, g_elems, g_cur_elem) \
   __CPROVER_loop_invariant(__begin1.i <= __begin1.n && __begin1.n == __end1.i && __begin1.n == g_vec_n) \
@@ -116,11 +116,11 @@ PluginRet PressureAbove_run(PressureAbove *self, OomdContext ctx)
   __CPROVER_decreases(__begin1.n - __begin1.i)
 
 /* ---- harnesses ---- */
-PluginRet PressureAbove_run(PressureAbove *self, OomdContext ctx);
-void h_PressureAbove_run(void)
+PluginRet PressureAbove__run(PressureAbove *self, OomdContext ctx);
+void h_PressureAbove__run(void)
 {
   PressureAbove *self;
   OomdContext ctx;
-  PressureAbove_run(self, ctx);
+  PressureAbove__run(self, ctx);
   __CPROVER_assert(0, "canary: contract precondition satisfiable and function exit reachable");
 }
